@@ -41,10 +41,8 @@ pub trait ExWrite {
             r is Ok ==> (*final(self)).out() == splice((*old(self)).out(), (*old(self)).wpos(), buf@)
                 && (*final(self)).wpos() == (*old(self)).wpos() + buf@.len()
                 && (*final(self)).nfail() == (*old(self)).nfail(),
-            // a failing write may have persisted any prefix of the buffer (crash / fault model)
-            r is Err ==> (*final(self)).nfail() == (*old(self)).nfail() + 1
-                && exists|k: int| 0 <= k <= buf@.len()
-                    && (*final(self)).out() == #[trigger] splice((*old(self)).out(), (*old(self)).wpos(), buf@.take(k));
+            // a failing write is counted (which prefix of the buffer was persisted is left open)
+            r is Err ==> (*final(self)).nfail() == (*old(self)).nfail() + 1;
 
     fn flush(&mut self) -> (r: Result<(), std::io::Error>)
         ensures
@@ -146,6 +144,60 @@ pub broadcast axiom fn ax_rs_fail<T: Read + Seek>(t: &T)
 pub broadcast axiom fn ax_rs_fail2<T: Read + Seek>(t: &T)
     ensures t.rfail() == #[trigger] t.sfail();
 pub broadcast group g_rs { ax_rs_pos, ax_rs_pos2, ax_rs_len, ax_rs_len2, ax_rs_fail, ax_rs_fail2 }
+
+/// the effect of one successful `write_all(b)`: positional write, cursor advanced, no failure.
+/// Closed: callers reason with the lemmas below (keeps the SMT queries small).
+pub closed spec fn wr<W: Write + ?Sized>(o: &W, f: &W, b: Seq<u8>) -> bool {
+    f.out() == splice(o.out(), o.wpos(), b) && f.wpos() == o.wpos() + b.len() && f.nfail() == o.nfail()
+}
+pub proof fn lemma_wr_unfold<W: Write + ?Sized>(o: &W, f: &W, b: Seq<u8>)
+    ensures wr(o, f, b) <==> (f.out() == splice(o.out(), o.wpos(), b) && f.wpos() == o.wpos() + b.len() && f.nfail() == o.nfail())
+{
+}
+/// a raw `write_all` result is a `wr` step
+pub broadcast proof fn lemma_wr_intro<W: Write + ?Sized>(o: &W, f: &W, b: Seq<u8>)
+    requires #[trigger] f.out() == #[trigger] splice(o.out(), o.wpos(), b), f.wpos() == o.wpos() + b.len(), f.nfail() == o.nfail()
+    ensures wr(o, f, b)
+{
+}
+pub broadcast proof fn lemma_wr_facts<W: Write + ?Sized>(o: &W, f: &W, b: Seq<u8>)
+    requires #[trigger] wr(o, f, b)
+    ensures f.wpos() == o.wpos() + b.len(), f.nfail() == o.nfail(),
+        f.out().len() == (if b.len() == 0 || o.wpos() + b.len() <= o.out().len() { o.out().len() } else { o.wpos() + b.len() }),
+{
+    lemma_splice_len(o.out(), o.wpos(), b);
+}
+/// marker (always true): names the state from which a function accumulates its writes.  The
+/// chaining lemma only fires from a marked origin, which keeps the number of derived facts linear.
+pub open spec fn origin<W: Write + ?Sized>(o: &W) -> bool { true }
+pub broadcast proof fn lemma_wr_wr<W: Write + ?Sized>(o: &W, m: &W, f: &W, a: Seq<u8>, b: Seq<u8>)
+    requires #[trigger] origin(o), #[trigger] wr(o, m, a), #[trigger] wr(m, f, b)
+    ensures wr(o, f, a + b)
+{
+    assert(splice(splice(o.out(), o.wpos(), a), o.wpos() + a.len(), b) =~= splice(o.out(), o.wpos(), a + b));
+}
+pub proof fn lemma_wr_empty<W: Write + ?Sized>(o: &W)
+    ensures wr(o, o, Seq::<u8>::empty())
+{
+}
+pub broadcast proof fn lemma_wr_append<W: Write + ?Sized>(o: &W, f: &W, b: Seq<u8>)
+    requires #[trigger] wr(o, f, b), at_end(o)
+    ensures f.out() == o.out() + b, at_end(f)
+{
+    lemma_splice_end(o.out(), o.wpos(), b);
+}
+/// overwriting inside the existing content keeps the length and everything outside the window
+pub proof fn lemma_wr_inside<W: Write + ?Sized>(o: &W, f: &W, b: Seq<u8>)
+    requires wr(o, f, b), o.wpos() + b.len() <= o.out().len()
+    ensures
+        f.out().len() == o.out().len(),
+        f.out().subrange(0, o.wpos() as int) == o.out().subrange(0, o.wpos() as int),
+        f.out().subrange(o.wpos() as int, (o.wpos() + b.len()) as int) == b,
+        f.out().subrange((o.wpos() + b.len()) as int, o.out().len() as int) == o.out().subrange((o.wpos() + b.len()) as int, o.out().len() as int),
+{
+    lemma_splice_inside(o.out(), o.wpos(), b);
+}
+pub broadcast group g_wr { lemma_wr_intro, lemma_wr_facts, lemma_wr_wr, lemma_wr_append }
 
 /// destination is in append position
 pub open spec fn at_end<W: Write + ?Sized>(w: &W) -> bool { w.wpos() == w.out().len() }
